@@ -102,8 +102,6 @@ func (a *AES128CBC) SerializeTo(b gopacket.SerializeBuffer, _ gopacket.Serialize
 	}
 	trailer[padLength] = uint8(padLength)
 
-	toEncrypt := b.Bytes() // includes confidentiality trailer
-
 	// secure random IV for confidentiality header
 	iv, err := b.PrependBytes(a.cipher.BlockSize())
 	if err != nil {
@@ -113,7 +111,11 @@ func (a *AES128CBC) SerializeTo(b gopacket.SerializeBuffer, _ gopacket.Serialize
 		return err
 	}
 
-	// encrypt everything after IV
+	// encrypt everything after IV, which includes the confidentiality trailer.
+	// This slice must be taken after prepending the IV: if that made the
+	// buffer reallocate, a slice obtained earlier would refer to the old
+	// array, and the payload would go out in the clear.
+	toEncrypt := b.Bytes()[a.cipher.BlockSize():]
 	mode := cipher.NewCBCEncrypter(a.cipher, iv)
 	mode.CryptBlocks(toEncrypt, toEncrypt)
 	return nil
